@@ -23,8 +23,10 @@ class InlinePool:
     """Minimal model of the pathos pool contract used by mixed_rank_graph: context manager, amap
     returning an async result with ready()/get(); results are in submission order."""
 
-    def __init__(self):
+    def __init__(self, ncpus=1):
         self.calls = 0
+        self.ncpus = ncpus          # pathos pools expose the worker count under this name (also nodes)
+        self.nodes = ncpus
 
     def __enter__(self):
         return self
@@ -60,7 +62,7 @@ class ScheduledPool(InlinePool):
     real threads); results are returned in submission order as amap guarantees."""
 
     def __init__(self, order_seed=0, workers=1, threads=False):
-        super().__init__()
+        super().__init__(ncpus=max(1, workers))
         self.order_seed = order_seed
         self.workers = max(1, workers)
         self.threads = threads
